@@ -45,6 +45,11 @@ type AliveDialerSet struct {
 
 	aliveChangeCallback func(alive bool)
 
+	// notifyMu serializes whole notifications (state update AND the alive-change
+	// callback, which runs with mu released) so that the set and the values handed
+	// to the callback follow the order in which notifications are delivered.
+	notifyMu sync.Mutex
+
 	mu                    sync.RWMutex
 	dialerToIndex         map[*Dialer]int // *Dialer -> index in aliveEntries, -Init, or -NotAlive
 	dialerToLatency       map[*Dialer]time.Duration
@@ -217,6 +222,25 @@ func (a *AliveDialerSet) printLatencies() {
 
 // NotifyLatencyChange should be invoked when dialer every time latency and alive state changes.
 func (a *AliveDialerSet) NotifyLatencyChange(dialer *Dialer, alive bool) {
+	a.notifyMu.Lock()
+	defer a.notifyMu.Unlock()
+	a.notifyLatencyChange(dialer, alive)
+}
+
+// NotifyAliveState delivers the dialer's CURRENT alive state for this set's
+// network type. Reports for one dialer run concurrently (probe pool, data path)
+// and notify the groups after the dialer's own lock is released; delivering the
+// state captured before that point could apply an older state after a newer one
+// and leave the set disagreeing with the dialer until its next report. Reading
+// the state once this set's notifications are serialized makes the last
+// delivered notification carry the final state.
+func (a *AliveDialerSet) NotifyAliveState(dialer *Dialer) {
+	a.notifyMu.Lock()
+	defer a.notifyMu.Unlock()
+	a.notifyLatencyChange(dialer, dialer.MustGetAlive(a.CheckTyp))
+}
+
+func (a *AliveDialerSet) notifyLatencyChange(dialer *Dialer, alive bool) {
 	a.mu.Lock()
 	defer a.mu.Unlock()
 	var (
